@@ -6,7 +6,7 @@ META = {
     "technique": "Lean 4 theorems over an executable model of kafka.Conn's response side: a size-threading reader monad (read.go/discard.go), parser programs interpreted over it (the readFrom methods, reflective struct layouts and the framing call table are regenerated from /repo by a go/ast translator on every run; the inline closures of conn.go/read.go are transcribed), (*Conn).do / waitResponse / ReadBatchWith+Batch as a connection state machine; byte conservation proved once for all parser programs by mutual induction; model<->code differential correspondence through a compiled Lean oracle driving the real Conn over net.Pipe against a scripted broker",
     "level_claimed": {
         "category": "proof",
-        "text": "Kernel-checked: for every operation going through (*Conn).do except list-offsets (metadata, brokers, controller, produce v2/v3/v7, create/delete topics, find coordinator, join/sync/leave group, heartbeat, list groups, offset commit/fetch, sasl handshake/authenticate), every negotiated version, EVERY byte content of a fully delivered response frame (so any int16 in any error field) and any following bytes: either the result is ok/a kafka error, exactly the frame was consumed, the Conn stays open and its state equals that of a fresh Conn at the next frame (aligned_or_closed, next_op_as_fresh), or the result is a non-kafka error and the Conn is closed, after which every operation fails (closed_stays_failed). Fetch: same statement for every byte-conserving message-set reader, under the hypothesis that a response at the high watermark carries an empty set (fetch_aligned_or_closed + counterexample). List-offsets relies on the shape of a well-formed answer: proved for every one-topic/one-partition frame (listOffsets_aligned_wf, all names, codes, values, trailing bytes) with a counterexample theorem for two partitions; ApiVersions (no expectZeroSize in the Go code): proved for every well-formed v0 frame (apiVersions_aligned_wf: any error code, any number of entries, any trailing bytes). The D2 shape (no drain) is refuted by d2_regression_counterexample. Model tied to the code by regenerated parser programs/call table and by running the real Conn and the model on the same frames (op x version x error codes in every error field x following op).",
+        "text": "Kernel-checked: for every operation going through (*Conn).do except list-offsets (metadata, brokers, controller, produce v2/v3/v7, create/delete topics, find coordinator, join/sync/leave group, heartbeat, list groups, offset commit/fetch, sasl handshake/authenticate), every negotiated version, EVERY byte content of a fully delivered response frame (so any int16 in any error field) and any following bytes: either the result is ok/a kafka error, exactly the frame was consumed, the Conn stays open and its state equals that of a fresh Conn at the next frame (aligned_or_closed, next_op_as_fresh), or the result is a non-kafka error and the Conn is closed, after which every operation fails (closed_stays_failed). Fetch: same statement for every byte-conserving message-set reader, under the hypothesis that a response at the high watermark carries an empty set (fetch_aligned_or_closed + counterexample). List-offsets relies on the shape of a well-formed answer: proved for every one-topic/one-partition frame (listOffsets_aligned_wf, all names, codes, values, trailing bytes) with a counterexample theorem for two partitions; ApiVersions (no expectZeroSize in the Go code): proved for every well-formed v0 frame (apiVersions_aligned_wf: any error code, any number of entries, any trailing bytes). The read lock (rlock) is released on every exit path of an exchange — peek error, ErrNoProgress, body read via do/ApiVersions, Batch.close — as regenerated facts (lock_facts_hold, lock_released_on_every_path, lock_released_fetch; leaked_lock_blocks + counterexamples: a leaked lock blocks every later operation forever). The D2 shape (no drain) is refuted by d2_regression_counterexample. Model tied to the code by regenerated parser programs/call table and by running the real Conn and the model on the same frames (op x version x error codes in every error field x following op).",
         "design_ref": "DESIGN.md §7 C11",
     },
     "level_note": "Trusted: Lean kernel; propext/Quot.sound; the go/ast translator go/extract/connlegacy.go (restricted Go subset, anything else = untranslated = broken obligation); the hand transcription of the conn.go closures (readOffset, writeCompressedMessages), read.go fetch headers, (*Conn).do/waitResponse/Batch.close into Model/ConnOps.lean (checked by correspondence on sampled frames only); bufio.Reader/net.Conn modelled (Peek/Discard/ReadFull on a byte list followed by EOF); message_reader.go abstracted to 'any byte-conserving reader' (its internals belong to C02/C05); deadlines never expire in the model; frame size prefix >= 4; response layouts in the driver are transcribed from the Kafka protocol documentation (no broker in the sandbox). ApiVersions alignment is proved for well-formed frames only (the Go code does not check for trailing bytes).",
@@ -22,11 +22,18 @@ def run(ctx):
         "fetch: a response whose high watermark equals the fetch offset carries an empty message set (counterexample theorem otherwise); message-set reader = any byte-conserving reader",
         "apiVersions: well-formed v0 frame (no expectZeroSize in the Go code) — apiVersions_aligned_wf",
         "deadlines do not expire during an exchange (checkTimeoutErr = io.EOF)",
+        "read-lock discipline is a syntactic fact per exit path (go/extract/connlegacy: every break of the wait loop, the statements after waitResponse in do/ApiVersions/ReadBatchWith, Batch.close); blocking itself is observed with per-operation watchdogs (2 s Conn deadline, 4 s watchdog; generation stops after 5 blocked cases)",
     ]
     broken = []
     ok, log = ctx.extract("connlegacy", ["lean/KafkaVerif/Gen/ConnLegacy.lean"])
     if not ok:
         broken.append({"kind": "obligation", "name": "translator go/extract connlegacy", "detail": log[-1500:]})
+        # the code left the translatable subset: keep searching for a failing input with the last committed model
+        # (the model of the unchanged code) so that the report carries a concrete replay, not only the broken obligation
+        import subprocess, os
+        subprocess.run(["git", "checkout", "--", "lean/KafkaVerif/Gen/ConnLegacy.lean"],
+                       cwd=os.path.dirname(os.path.dirname(os.path.abspath(__file__))), capture_output=True)
+        ctx.notes.append("translator failed: correspondence run against the committed Gen/ConnLegacy.lean")
     res = ctx.prove(MODULE)
     if not res["ok"]:
         broken.append({"kind": "obligation", "theorems": res["failed"], "detail": res["reasons"][:10]})
